@@ -36,3 +36,21 @@ Definition cast_usize (z : Z) : Z := z mod 18446744073709551616.
 
 (** [Ord::cmp] on integers: Less/Equal/Greater are Lt/Eq/Gt *)
 Definition i32_cmp (a b : Z) : comparison := Z.compare a b.
+
+(** [usize::try_into::<i32>().expect(..)]: panics when the value does not fit *)
+Definition usize_to_i32 (z : Z) : rs Z := if z <=? i32_max then Ret z else Panic.
+
+(** [iter.map(f).collect()] with an [f] that may panic: the elements are visited in order *)
+Fixpoint mapM {A B : Type} (f : A -> rs B) (l : list A) : rs (list B) :=
+  match l with
+  | [] => Ret []
+  | x :: l' => bind (f x) (fun y => bind (mapM f l') (fun ys => Ret (y :: ys)))
+  end.
+
+(** what [into_iter()] / iteration ranges over: a vector is its elements, a [Range<usize>] s..e the
+    numbers s, s+1, .., e-1 *)
+Class Iterable (C A : Type) := to_list : C -> list A.
+Global Instance iter_list {A} : Iterable (list A) A := fun l => l.
+Definition range_list (r : Z * Z) : list Z :=
+  map (fun k => fst r + Z.of_nat k) (seq 0 (Z.to_nat (snd r - fst r))).
+Global Instance iter_range : Iterable (Z * Z) Z := range_list.
